@@ -518,7 +518,15 @@ pub fn gen_world(base: u64, run: u64, profile: Profile) -> World {
                 } else {
                     let h = open[wl.usize_below(open.len())];
                     match wl.below(100) {
-                        0..=69 => OpKind::Next { h },
+                        0..=63 => OpKind::Next { h },
+                        64..=69 => {
+                            // std's own Iterator methods on the concrete iterator type
+                            let kind = wl.below(4) as u32;
+                            if kind < 2 {
+                                open.retain(|x| *x != h);
+                            }
+                            OpKind::Adaptor { h, kind, k: wl.below(4) as u32 }
+                        }
                         70..=77 => OpKind::Drain { h },
                         78..=87 => OpKind::Resume { h },
                         88..=93 => {
@@ -590,7 +598,7 @@ pub fn gen_world(base: u64, run: u64, profile: Profile) -> World {
             if let OpKind::ReplaceNested { re: ReRef::Shared(i), .. } = &op {
                 let _ = i;
             }
-            let searching = matches!(op, OpKind::Next { .. } | OpKind::Drain { .. } | OpKind::Find { .. } | OpKind::Replace { .. } | OpKind::ReplaceNested { .. } | OpKind::Compile { .. } | OpKind::CloneRegex { .. } | OpKind::Burst { .. } | OpKind::ReplacePanic { .. });
+            let searching = matches!(op, OpKind::Next { .. } | OpKind::Drain { .. } | OpKind::Adaptor { .. } | OpKind::Find { .. } | OpKind::Replace { .. } | OpKind::ReplaceNested { .. } | OpKind::Compile { .. } | OpKind::CloneRegex { .. } | OpKind::Burst { .. } | OpKind::ReplacePanic { .. });
             let cancel_at = if searching && cancel_pct > 0 && wl.chance(cancel_pct, 100) {
                 match wl.below(4) {
                     0 => 1 + wl.below(4),
